@@ -6,7 +6,7 @@
 (* the abstract session holds.  The validator never stops at a mismatch:   *)
 (* it records the line, prints the expected value and goes on.             *)
 (***************************************************************************)
-EXTENDS Ops, Json, IOUtils, TLC
+EXTENDS Ops, JsonText, Json, IOUtils, TLC
 
 Rec == ndJsonDeserialize(IOEnv.TRACE)
 
@@ -37,7 +37,9 @@ Rp(ev, i) == IF Has(ev, "rp") /\ i <= Len(ev.rp) THEN ev.rp[i] ELSE 0
 \* the inputs the harness built are what the specification says they are
 CommonGround(ev) ==
   \A i \in 1..NDocs(ev) :
-     IF Rp(ev, i) = 0 THEN Tup(ev.inp[i]) = Tup(Encode(D(ev, i))) ELSE TRUE
+     IF Rp(ev, i) = 0 THEN Tup(ev.inp[i]) = Tup(Encode(D(ev, i)))
+     ELSE /\ LexemesOk(D(ev, i), IF Has(ev, "fl") THEN ev.fl ELSE <<>>)
+          /\ Tup(ev.inp[i]) = Tup(RenderText(D(ev, i), Rp(ev, i) - 1, IF Has(ev, "fl") THEN ev.fl ELSE <<>>))
 
 \* C17: what was appended to a pre-filled buffer is what went into an empty one
 BufferOk(ev) ==
@@ -167,12 +169,92 @@ ArrayValues(d) ==
   IF d.k = "arr" THEN [t |-> "list", v |-> [i \in 1..Len(d.a) |-> Tup(Encode(d.a[i]))]] ELSE RNone
 
 ----------------------------------------------------------------------------
+(* text: parsing and rendering *)
+ParseValueOk(ev) ==
+  LET spec == Parse(ev.inp[1], FALSE)
+      r == ev.res
+  IN IF spec = Err THEN r.t = "err"
+     ELSE r.t = "doc" /\ Matches(spec, r.v) # "no"
+
+RenderOk(ev) ==
+  LET d == D(ev, 1)
+      r == ev.res
+      pc == Parse(r.c, TRUE)
+      pp == Parse(r.p, TRUE)
+      want == RBytes(Encode(ToUnsigned(d)))
+  IN /\ r.t = "render"
+     /\ pc # Err /\ Denotes(pc, d) # "no"
+     /\ pp # Err /\ Denotes(pp, d) # "no"
+     /\ PrettyLayoutOk(r.c, r.p)
+     /\ SafeEq(want, r.rc) /\ SafeEq(want, r.rp)
+
+----------------------------------------------------------------------------
+(* serde_json bridge (C19): the serde model is the document with every integer classified  *)
+(* PosInt (u) / NegInt (i) and floats by bits                                               *)
+SerdeOk(ev) ==
+  LET d == D(ev, 1)
+      r == ev.res
+      want == ToUnsigned(Canon(d))
+      strict == Parse(r.text, TRUE)
+  IN /\ r.t = "serdeinfo"
+     /\ SafeEq([t |-> "serde", v |-> want], r.bytes)
+     \* ... which is what an independent strict parser reads from the text rendering
+     /\ strict # Err /\ Matches(strict, want) # "no"
+     /\ (IF d.k = "obj" THEN SafeEq([t |-> "serde", v |-> want], r.object) ELSE SafeEq(RNone, r.object))
+     /\ SafeEq([t |-> "serde", v |-> want], r.tree)
+     /\ SafeEq(RDoc(want), r.tree_back) /\ DocEq(r.tree_back.v, d)
+     /\ SafeEq(RDoc(want), r.bytes_back)
+
+----------------------------------------------------------------------------
+(* decoding untrusted bytes (C10) *)
+RECURSIVE StringsWellFormed(_)
+StringsWellFormed(d) ==
+  CASE d.k = "str" -> WellFormed(d.s)
+    [] d.k = "arr" -> \A i \in 1..Len(d.a) : StringsWellFormed(d.a[i])
+    [] d.k = "obj" -> \A i \in 1..Len(d.o) : WellFormed(d.o[i][1]) /\ StringsWellFormed(d.o[i][2])
+    [] OTHER -> TRUE
+DecResOk(r) == Has(r, "t") /\ (r.t = "err" \/ (r.t = "doc" /\ StringsWellFormed(r.v)))
+DecodeOk(ev) ==
+  LET raw == ev.inp[1]
+      a == ev.a
+  IN /\ DecResOk(ev.res) /\ DecResOk(ev.res_fs)
+     \* a proper prefix of a valid encoding is an error for both decoders
+     /\ (Has(a, "of") =>
+           /\ a.cut < Len(Encode(a.of)) /\ Tup(raw) = Tup(Take(Encode(a.of), a.cut))      \* the script is what it claims
+           /\ ev.res.t = "err" /\ ev.res_fs.t = "err")
+     \* valid JSON text not beginning with a space: the text fallback yields the value it denotes
+     /\ (Has(a, "text") =>
+           LET spec == Parse(raw, TRUE)
+           IN /\ spec # Err /\ raw[1] # 32
+              /\ ev.res_fs.t = "doc" /\ Matches(spec, ev.res_fs.v) # "no")
+     \* an intact encoding decodes to the document
+     /\ (Has(a, "intact") =>
+           /\ Tup(raw) = Tup(Encode(a.intact))
+           /\ SafeEq(RDoc(Canon(a.intact)), ev.res) /\ SafeEq(RDoc(Canon(a.intact)), ev.res_fs))
+
+LazyOk(ev) ==
+  LET d == D(ev, 1)
+      r == ev.res
+      isbin == Rp(ev, 1) = 0
+      pre == IF Has(ev.a, "pre") THEN ev.a.pre ELSE <<>>
+  IN /\ r.t = "lazy"
+     /\ r.kind = (IF isbin THEN "raw" ELSE "value")
+     /\ Tup(r.vec) = Tup(Encode(d)) /\ Tup(r.wvec) = Tup(pre \o Encode(d))
+     /\ r.alen = (IF d.k = "arr" THEN <<Len(d.a)>> ELSE <<>>)
+     /\ DocEq(r.val, d) /\ Tup(Encode(r.val)) = Tup(Encode(d))
+
+----------------------------------------------------------------------------
 Accept(ev) ==
   LET op == ev.op
       a == ev.a
   IN
   CASE op = "to_vec" -> SafeEq(RBytes(Encode(D(ev, 1))), ev.res) /\ BufferOk(ev)
     [] op = "roundtrip" -> RoundTripOk(ev)
+    [] op = "parse_value" -> ParseValueOk(ev)
+    [] op = "render" -> RenderOk(ev)
+    [] op = "serde" -> SerdeOk(ev)
+    [] op = "decode" -> DecodeOk(ev)
+    [] op = "lazy" -> LazyOk(ev)
     [] op = "num" -> NumInfoOk(ev)
     [] op = "num_decode" -> NumDecodeOk(ev)
     [] op = "num_cmp" -> NumCmpOk(ev)
